@@ -54,7 +54,10 @@ def _cleanup():
 def _maybe_flush(f):
     try:
         f.flush()
-    except (AttributeError, EnvironmentError, NotImplementedError):
+    except (AttributeError, EnvironmentError, NotImplementedError,
+            ValueError):
+        # ValueError: the target closed the stream ("I/O operation on
+        # closed file"); that must not turn a normal return into exit code 1.
         pass
 
 
